@@ -112,6 +112,7 @@ var commonStub = []string{
 	"crypto/rand: seeded stream (cryptotest.SetGlobalRandom) in non-race builds",
 	"Symantec VIP service, LDAP wire, SMTP: simulated backends behind entry hooks; Okta authentication API: simulated service behind http.DefaultClient's transport (the real lib/authenticators/okta and /api/v0/okta* handlers run against it); OAuth2 identity provider for federated login: simulated token and userinfo endpoints behind the same transport (real golang.org/x/oauth2 exchange and the real login/callback handlers)",
 	"TCP/TLS transport: requests built in-process; VerifiedChains produced by x509.Verify against the server's ClientCAPool as crypto/tls would",
+	"external password helper (external_auth_command): a real child process (fixtures/authhelper.sh) whose fate the plan decides (exit 0/1, dies from a signal, other exit status)",
 	"post-unseal steps inlined in main() (CA pool completion, password-cache storage hookup) are re-implemented in the harness",
 	"U2F hardware token: software token; WebAuthn/FIDO2 attestation, gitDB, ACME, PostgreSQL dialect: not exercised",
 }
